@@ -82,7 +82,8 @@ async def _invoke(case):
     res = await _Processor(conn).actor_run(r.actors["act"], key, Parameters(), payload, conn)
     if res.success:
         return {"fail": False, "vals": [jsafe(v) for v in log.get("got", [])], "x": log.get("x"), "calls": log["calls"]}
-    return {"fail": True, "vals": [], "exc": type(res.exception).__name__, "calls": log["calls"], "ran": "got" in log}
+    return {"fail": True, "vals": [], "exc": type(res.exception).__name__, "calls": log["calls"], "ran": "got" in log,
+            "reported": bool(res.reporting_done)}
 
 
 def _run(case):
@@ -146,7 +147,7 @@ def run(tier: str, seed: int, replay=None) -> int:
     cases = [cases[k] for k in keep]
     gots = [gots[k] for k in keep]
     traces = [[{"g": c["g"], "deps": c["deps"], "ovs": [{"n": o["n"], "tag": o["tag"], "kids": o["kids"]} for o in c["ovs"]],
-                "got": {"fail": g["fail"], "vals": g["vals"]}}] for c, g in zip(cases, gots)]
+                "got": {"fail": g["fail"], "vals": g["vals"], "reported": bool(g.get("reported"))}}] for c, g in zip(cases, gots)]
     v = tlc.validate_traces("Trace_Deps", "Trace_Deps.cfg", traces, chunk=5000)
     ck.add_tlc(v.result, f"Trace_Deps: {len(traces)} real resolutions compared with Expected(graph, overrides, deps)")
     ck.traces += len(traces)
@@ -163,17 +164,54 @@ def run(tier: str, seed: int, replay=None) -> int:
     for i in sorted(v.rejected)[:15]:
         ck.violation(f"dependency values differ from the specification: graph {cases[i]['g']} overrides {cases[i]['ovs']} deps {cases[i]['deps']} -> {gots[i]}",
                      {"check": "c18", "case": cases[i], "observed": gots[i]})
-    # declaration-time refusals
-    from repid import Depends
-    refused = 0
-    for src in ("def p(a, /): return 1", "def p(a): return 1", "async def p(*, a): return 1"):
-        ns = {}
-        exec(compile(src, "<decl>", "exec", dont_inherit=True), ns)  # noqa: S102
-        try:
-            Depends(ns["p"])
-            ck.violation(f"unsupported provider declaration accepted: {src}", {"check": "c18", "src": src})
-        except ValueError:
-            refused += 1
+    # declaration-time refusals: of providers (Depends(...), override(...)) and of actors (Router.actor); every parameter shape
+    # x dependency or not x default or not, one and two parameters: the real answer is compared with DeclSupported by TLC
+    import inspect as _inspect
+    from repid import Depends, MessageDependency, Router
+    D = Depends(lambda: 1)
+    kinds = {"po": "{}, /", "pk": "{}", "kw": "*, {}", "va": "*{}", "vk": "**{}"}
+
+    def one(kind, dep, dflt, name):
+        ann = ": Annotated[Any, D]" if dep == "dep" else (": MessageDependency" if dep == "msg" else "")
+        return f"{name}{ann}" + (" = None" if dflt and kind in ("po", "pk", "kw") else "")
+    decl_cases = []
+    for kind in kinds:
+        for dep in ("dep", "msg", "plain"):
+            for dflt in (False, True):
+                if kind in ("va", "vk") and dflt:
+                    continue
+                params = [{"kind": kind, "dep": dep != "plain", "hasdefault": bool(dflt)}]
+                src = "def p(" + kinds[kind].format(one(kind, dep, dflt, "a")) + "): return 1"
+                decl_cases.append((src, params))
+                # a second, supported, dependency parameter next to it
+                if kind in ("po", "pk"):
+                    src2 = "def p(" + kinds[kind].format(one(kind, dep, dflt, "a")) + (", *, b: Annotated[Any, D]" if kind == "po" else ", b: Annotated[Any, D] = None") + "): return 1"
+                    decl_cases.append((src2, params + [{"kind": "kw" if kind == "po" else "pk", "dep": True, "hasdefault": kind != "po"}]))
+    dtraces, dmeta = [], []
+    for src, params in decl_cases:
+        for how in ("provider", "override", "actor"):
+            ns = {"Annotated": Annotated, "Any": Any, "D": D, "MessageDependency": MessageDependency}
+            exec(compile(src, "<decl>", "exec", dont_inherit=True), ns)  # noqa: S102
+            if how == "actor" and any(p_["kind"] in ("va", "vk") for p_ in params):
+                continue            # (actors refuse *args / **kwargs for a reason of their own: C08)
+            try:
+                if how == "provider":
+                    Depends(ns["p"])
+                elif how == "override":
+                    Depends(lambda: 2).override(ns["p"])
+                else:
+                    Router().actor(name="x")(ns["p"])
+                accepted = True
+            except ValueError:
+                accepted = False
+            dtraces.append([{"decl": params, "actor": how == "actor", "accepted": accepted}])
+            dmeta.append((src, how, accepted))
+    vd = tlc.validate_traces("Trace_Deps", "Trace_Deps.cfg", dtraces, chunk=5000)
+    ck.add_tlc(vd.result, f"Trace_Deps: {len(dtraces)} declarations (providers, overrides, actors) compared with DeclSupported")
+    refused = sum(1 for (_, _, a) in dmeta if not a)
+    for k in sorted(vd.rejected)[:8]:
+        src, how, accepted = dmeta[k]
+        ck.violation(f"declaration {'accepted' if accepted else 'refused'} ({how}) against the specification: {src}", {"check": "c18", "src": src, "how": how})
     ck.notes["declarations_refused"] = refused
     if replay is None:
         import copy
